@@ -7,7 +7,13 @@ Ties: K1 exact-output differential of the real `NodeExpandedDiGraph` (node order
 attributes, `edges_to_ignore`, expanded constraints / starts / ends / elements, condensed paths, condensed graph)
 against the Lean driver; K2 three-way LP-dump equality: real `kFlowDecomp(flow_attr_origin="node")`, real
 `kFlowDecomp` in edge mode on an expansion built by this file (independent of `NodeExpandedDiGraph`), Lean
-`lp.kfdnode`.
+`lp.kfdnode`; the same three-way comparison for the node branches of kPathCover (cover_type="node"), kLeastAbsErrors and
+kMinPathError (`lp.kcovernode`, `lp.klaenode`, `lp.kmpenode`: additional starts / ends, error_scaling keyed by node,
+path_length_ranges / factors), where "real node branch = real edge branch on the explicit expansion" is the property
+oracle and "real node branch = Lean node branch" the tie. Lean: node_mode_is_edge_mode_on_expansion_klae / _kmpe
+(unconditional) and _kcover (under the hypothesis that the two readings of the length attribute agree on the constraint
+edges; kcover_node_mode_length_witness shows it cannot be dropped: kPathCover builds its expansion without
+node_length_attr - finding C11-kpathcover-node-length-default).
 Oracle (property text, K5): for every class with a node mode, solve in node mode and solve the explicit expansion in
 edge mode: same solved status, same objective, returned routes use original node names and are walks of the original
 graph.
@@ -25,6 +31,9 @@ THEOREMS = ["FP.Props.C11." + t for t in [
     "expansion_acyclic", "expanded_walk_condenses", "expanded_route_condenses", "node_mode_paths_condense",
     "condenseFlow_expandFlow", "kfdLP_ignore_as_set", "node_mode_is_edge_mode_on_expansion", "node_mode_accepts",
     "node_mode_accepted_has_active",
+    "node_mode_is_edge_mode_on_expansion_klae", "node_mode_is_edge_mode_on_expansion_kmpe",
+    "node_mode_is_edge_mode_on_expansion_kcover", "kcover_lengths_agree_on_node_constraints",
+    "kcover_lengths_eq_of_all_edges", "node_branch_ignore_and_values", "kcover_node_mode_length_witness",
     "dotted_names_condense_witness", "first_constraint_empty_witness"]]
 IMPORTS = ["FP.Props.C11"]
 RULE = ("node-weighted digraphs on 1-7 nodes: random DAGs and digraphs with self-loops / 2-cycles / nested cycles, isolated "
@@ -37,9 +46,13 @@ RULE = ("node-weighted digraphs on 1-7 nodes: random DAGs and digraphs with self
 MODEL_SCOPE = ("modelled: NodeExpandedDiGraph.__init__ (graph, flow / length attributes, _edges_to_ignore, global source/sink "
                "block), get_expanded_edge, get_expanded_subpath_constraints (node and edge form), "
                "get_expanded_additional_starts/ends, get_condensed_paths, get_condensed_graph (flow attribute), node branch "
-               "of kFlowDecomp.__init__ up to the LP. Not modelled: _try_filling_in_missing_flow_values (networkx min-cost "
+               "of kFlowDecomp.__init__ up to the LP, node branches of kPathCover / kLeastAbsErrors / kMinPathError.__init__ up "
+               "to the LP (FP/Model/NodeExpandModes.lean: translation of constraints, additional starts / ends, ignored nodes, "
+               "error_scaling, dummy flow attribute and copied length attribute of kPathCover, encode_edge_position of "
+               "kMinPathError; without solution_weights_superset and safety optimisations). Not modelled: _try_filling_in_missing_flow_values (networkx min-cost "
                "flow), attributes other than the flow / length attribute, constraint lists mixing nodes and edges, the node "
-               "branches of the other classes (covered end-to-end by the K5 oracle only).")
+               "branches of the remaining classes (Min* wrappers, MinErrorFlow, the cyclic classes: covered end-to-end by the "
+               "K5 oracle only).")
 TRUSTED = ["python str slicing s[-2:], s[:-2] and concatenation = List Char drop/take/append as transcribed in "
            "FP/Model/NodeExpand.lean", "HiGHS returns the optimum of the small instances of the K5 oracle within 30 s"]
 ASSUMPTIONS = ["node names are python str (the class rejects anything else)",
@@ -551,6 +564,174 @@ def run_k2(ctx, rng, n):
             ctx.rep.sample({"k2_case": k2})
 
 
+# ----------------------------------------------------------------------------- K2 (three-way, kPathCover / kLeastAbsErrors / kMinPathError)
+
+K2M = {"kPathCover": "lp.kcovernode", "kLeastAbsErrors": "lp.klaenode", "kMinPathError": "lp.kmpenode"}
+NO_SAFETY = {"optimize_with_safe_paths": False, "optimize_with_safe_sequences": False, "optimize_with_safe_zero_edges": False,
+             "optimize_with_subpath_constraints_as_safe_sequences": False, "optimize_with_safety_as_subpath_constraints": False,
+             "optimize_with_safety_from_largest_antichain": False, "optimize_with_greedy": False,
+             "optimize_with_flow_safe_paths": False}
+
+
+def gen_k2m(rng, cls):
+    """the configurations of gen_k2 (DAG, hostile names, node / edge constraints, ignored nodes, lengths, coverage) plus
+    what the three node branches translate in addition: additional starts / ends, error_scaling keyed by node (factor 0
+    = ignored), path_length_ranges / factors; safety optimisations off (they do not reach the modelled LP)"""
+    k2 = gen_k2(rng)
+    k2["given_weights"] = None
+    cfg = k2["graph"]
+    bad = ["nosuch"] if rng.random() < 0.04 else []
+    k2["starts"] = [v for v in cfg["nodes"] if rng.random() < 0.15] + (bad if rng.random() < 0.5 else [])
+    k2["ends"] = [v for v in cfg["nodes"] if rng.random() < 0.15]
+    k2["scaling"] = {}
+    if cls != "kPathCover" and rng.random() < 0.5:
+        k2["scaling"] = {v: rng.choice(["0", "1/2", "1", "1/4"]) for v in cfg["nodes"] + bad if rng.random() < 0.4}
+        if rng.random() < 0.04 and cfg["nodes"]:
+            k2["scaling"][cfg["nodes"][0]] = "2"                      # outside [0, 1]: rejected by both branches
+    k2["ranges"], k2["factors"] = [], []
+    if cls == "kMinPathError" and rng.random() < 0.3:
+        k2["ranges"], k2["factors"] = [[0, 2], [3, 40]], rng.choice([[1, 2], [1, 1], [2, 3]])
+        if rng.random() < 0.1:
+            k2["factors"] = k2["factors"][:1]                          # lengths differ: rejected
+    k2["options"] = dict(NO_SAFETY)
+    if rng.random() < 0.3:
+        k2["options"]["allow_empty_paths"] = True
+    k2["class"] = cls
+    return k2
+
+
+def k2m_kwargs(cls, k2, numtype, has_len):
+    kw = dict(k=k2["k"], subpath_constraints_coverage=float(frac(k2["coverage"])),
+              optimization_options=dict(k2["options"]))
+    if k2["coverage_length"] is not None:
+        kw["subpath_constraints_coverage_length"] = float(frac(k2["coverage_length"]))
+    if has_len:
+        kw["length_attr"] = LEN
+    if cls != "kPathCover":
+        kw["flow_attr"] = ATTR
+        kw["weight_type"] = numtype
+    if cls == "kMinPathError":
+        kw["path_length_ranges"] = [tuple(r) for r in k2["ranges"]]
+        kw["path_length_factors"] = list(k2["factors"])
+    return kw
+
+
+def k2m_case(ctx, k2):
+    """real node branch | real edge branch on an expansion built here from the property text | Lean node branch"""
+    fp = ctx.fp
+    cls = k2["class"]
+    cfg = k2["graph"]
+    numtype = int if k2["weight_type"] == "int" else float
+    has_len = cfg["node_len"] is not None
+    kind, cons = k2["constraints_kind"], k2["constraints"]
+    pycons = [[tuple(x) for x in c] for c in cons] if kind == "edges" else [list(c) for c in cons]
+    scaling = {v: float(frac(q)) for v, q in k2["scaling"].items()}
+    inp = dict(k2)
+
+    def unmodelled(m):
+        if m.edges_set_to_zero or m.edges_set_to_one:
+            raise RuntimeError("edge variables fixed by safety (not modelled)")
+        return dump_of(m)
+
+    def node_side():
+        kw = k2m_kwargs(cls, k2, numtype, has_len)
+        G = build_G(cfg, numtype=numtype)
+        if cls == "kPathCover":
+            return unmodelled(fp.kPathCover(G=G, cover_type="node", subpath_constraints=pycons,
+                                            elements_to_ignore=list(k2["ignore"]), additional_starts=list(k2["starts"]),
+                                            additional_ends=list(k2["ends"]), **kw))
+        return unmodelled(getattr(fp, cls)(G=G, flow_attr_origin="node", subpath_constraints=pycons,
+                                           elements_to_ignore=list(k2["ignore"]), additional_starts=list(k2["starts"]),
+                                           additional_ends=list(k2["ends"]), error_scaling=dict(scaling), **kw))
+
+    def edge_side():
+        X, ign = explicit_expansion(cfg, numtype=numtype, with_len=has_len)
+        if cls == "kPathCover":        # nothing carries a value: every node is to be covered
+            ign = [(u + ".1", v + ".0") for u, v in cfg["edges"]]
+        for v in list(k2["ignore"]) + list(k2["starts"]) + list(k2["ends"]) + list(k2["scaling"]):
+            if v not in cfg["nodes"]:
+                raise ValueError("node not in the original graph")
+        ign = ign + [x_node(v) for v in k2["ignore"]]
+        for c in cons:
+            for x in c:
+                if (kind == "nodes" and x not in cfg["nodes"]) or (kind == "edges" and list(x) not in cfg["edges"]):
+                    raise ValueError("constraint element not in the original graph")
+        if cons and not cons[0]:
+            raise IndexError("first constraint empty")
+        kw = k2m_kwargs(cls, k2, numtype, has_len)
+        xs, xe = [v + ".0" for v in k2["starts"]], [v + ".1" for v in k2["ends"]]
+        if cls == "kPathCover":
+            return unmodelled(fp.kPathCover(G=X, cover_type="edge", subpath_constraints=x_constraints(kind, cons),
+                                            elements_to_ignore=ign, additional_starts=xs, additional_ends=xe, **kw))
+        return unmodelled(getattr(fp, cls)(G=X, flow_attr_origin="edge", subpath_constraints=x_constraints(kind, cons),
+                                           elements_to_ignore=ign, additional_starts=xs, additional_ends=xe,
+                                           error_scaling={x_node(v): q for v, q in scaling.items()}, **kw))
+
+    def side(f):
+        try:
+            return ("ok", f())
+        except (ValueError, IndexError) as e:
+            return ("raises", type(e).__name__)
+        except Exception as e:
+            return ("crash", f"{type(e).__name__}: {str(e)[:100]}")
+
+    a, b = side(node_side), side(edge_side)
+    suite = "K2." + cls + "_node"
+    req = dict(graph_request(cfg), op=K2M[cls], ignore=k2["ignore"], constraints_kind=kind, constraints=cons,
+               weight_type=k2["weight_type"], k=k2["k"], coverage=k2["coverage"], coverage_length=k2["coverage_length"],
+               allow_empty=bool(k2["options"].get("allow_empty_paths", False)), starts=k2["starts"], ends=k2["ends"],
+               scaling=[[v, q] for v, q in k2["scaling"].items()],
+               path_length_ranges=[[qstr(x), qstr(y)] for x, y in k2["ranges"]],
+               path_length_factors=[qstr(x) for x in k2["factors"]])
+    m = ctx.driver.call(req)
+    c = ("raises", m["raises"]) if "raises" in m else ("ok", lpdump.from_driver(m["ok"]))
+    if cls == "kPathCover":
+        active = len([v for v in cfg["nodes"] if v not in k2["ignore"]])
+    else:
+        active = len([v for v in cfg["nodes"] if v in cfg["node_flow"] and v not in k2["ignore"]])
+    ctx.rep.count(suite, inp, nontrivial=(a[0] == "ok" and active > 0),
+                  hist=[f"node:{a[0]}", f"edge:{b[0]}", f"lean:{c[0]}", kind if cons else "nocons",
+                        "lengths" if has_len else "nolen", "starts/ends" if k2["starts"] or k2["ends"] else "nostarts",
+                        "scaling" if k2["scaling"] else "noscaling", "factors" if k2["factors"] else "nofactors",
+                        "coverage_length" if k2["coverage_length"] is not None else "coverage"])
+    ctx.rep.cov["traces_validated_against_impl"] += 1
+    if a[0] == "crash" or b[0] == "crash":
+        if a[0] == "crash" and b[0] == "ok" and "not modelled" not in a[1]:
+            ctx.rep.cov["oracle_evaluations"] += 1
+            report(ctx, f"{cls} in node mode raises {a[1]} where the explicit expansion in edge mode builds its model",
+                   {"class": cls, "stage": "constructor", "error": a[1], "case": inp}, site=cls + ".node_mode",
+                   sig="raises " + a[1].split(":")[0])
+        return
+    if a[0] != c[0] or (a[0] == "ok" and a[1] != c[1]):
+        ctx.disagree(suite, inp, a[0] if a[0] != "ok" else lpdump.diff(a[1], c[1]), c[0], note="real node mode vs Lean")
+    # property oracle: the LP of the node branch is the LP of the edge branch on the explicit expansion
+    ctx.rep.cov["oracle_evaluations"] += 1
+    if (a[0] == "ok") != (b[0] == "ok") or (a[0] == "ok" and a[1] != b[1]):
+        d = a[0] + "/" + b[0] if a[0] != "ok" or b[0] != "ok" else json.dumps(lpdump.diff(a[1], b[1]))[:600]
+        report(ctx, f"{cls}: the model built in node mode differs from the model built in edge mode on the explicit "
+                    f"expansion of the property text: {d}",
+               {"class": cls, "stage": "lp", "case": inp}, site=cls + ".node_mode.lp",
+               sig=("lengths" if has_len and k2["coverage_length"] is not None else "other"))
+
+
+def run_k2m(ctx, rng, n):
+    for cls in K2M:
+        for it in range(n):
+            k2 = gen_k2m(rng, cls)
+            k2m_case(ctx, k2)
+            if it == 0:
+                ctx.rep.sample({"k2m_case": k2})
+
+
+COVER_LENGTH_WITNESS = {          # FP.Props.C11.exCover / kcover_node_mode_length_witness
+    "class": "kPathCover",
+    "graph": {"nodes": ["a", "b", "c"], "edges": [["a", "b"], ["a", "c"], ["c", "b"]], "node_flow": {},
+              "edge_flow": [], "node_len": {"a": 1, "b": 1, "c": 1}, "edge_len": [], "cyclic": False},
+    "weight_type": "int", "k": 1, "constraints_kind": "edges", "constraints": [[["a", "b"]]], "coverage": "1",
+    "coverage_length": "3/4", "ignore": [], "given_weights": None, "options": dict(NO_SAFETY), "starts": [], "ends": [],
+    "scaling": {}, "ranges": [], "factors": []}
+
+
 # ----------------------------------------------------------------------------- K5 (end-to-end metamorphic oracle)
 
 DAG_CLASSES = ["kFlowDecomp", "MinFlowDecomp", "kLeastAbsErrors", "kMinPathError", "kPathCover", "MinPathCover", "MinErrorFlow"]
@@ -865,6 +1046,8 @@ def run(ctx):
     run_witnesses(ctx)
     run_k1(ctx, rng, ctx.n(400, 10000))
     run_k2(ctx, rng, ctx.n(250, 4000))
+    k2m_case(ctx, copy.deepcopy(COVER_LENGTH_WITNESS))
+    run_k2m(ctx, rng, ctx.n(120, 1500))
     run_k5(ctx, rng, ctx.n(20, 100))
     # the engine starts the failing-input search only when no violation was recorded at all; violations that are
     # known findings must not keep a broken tie from being investigated
@@ -940,14 +1123,20 @@ def finding_case(ctx, minimal_input):
     """newer engines replay the stored minimal input of every listed finding first"""
     if isinstance(minimal_input, dict) and "class" in minimal_input and "instance" in minimal_input:
         k5_case(ctx, minimal_input["class"], minimal_input["instance"], suite="findings")
+    elif isinstance(minimal_input, dict) and minimal_input.get("class") in K2M and "graph" in minimal_input:
+        k2m_case(ctx, copy.deepcopy(minimal_input))
 
 
 def replay(ctx, payload):
     inp = payload.get("input") or (payload.get("disagreements") or [{}])[0].get("input") or {}
     if "class" in inp and "instance" in inp:
         print(k5_case(ctx, inp["class"], inp["instance"], suite="replay"))
+    elif "case" in inp and inp["case"].get("class") in K2M:
+        k2m_case(ctx, inp["case"])
     elif "case" in inp:
         k2_case(ctx, inp["case"])
+    elif inp.get("class") in K2M and "graph" in inp:
+        k2m_case(ctx, inp)
     elif "graph" in inp and "k" in inp:
         k2_case(ctx, inp)
     elif "graph" in inp:
